@@ -358,6 +358,10 @@ func c04AlgValues() []rc.Val {
 	for _, a := range []int64{-7, -8, -35, -36, -37, -38, -39, -65537, 7, 0, -9223372036854775808} {
 		out = append(out, rc.Int(a))
 	}
+	// unsigned values beyond int64, in particular the two's-complement images of the signer algorithms
+	for _, u := range []uint64{1 << 63, 1<<64 - 7, 1<<64 - 8, 1<<64 - 37, 1<<64 - 65537, 1<<64 - 1} {
+		out = append(out, rc.Uint(u))
+	}
 	out = append(out, rc.Text("ES256"), rc.Text(""), rc.Bytes([]byte{1}), rc.Float(1.5), rc.Bool(true), rc.Null, rc.Array(rc.Int(-7)))
 	return out
 }
